@@ -983,6 +983,8 @@ func (e *Engine) execFor(st *State, n *ast.ForStmt, cx *Ctx) *State {
 	if lc != nil && lc.skip {
 		return e.skipLoop(st, n, n.Body, n.Post, n.Cond)
 	}
+	e.loopBounds = append(e.loopBounds, st.alloc)
+	defer func() { e.loopBounds = e.loopBounds[:len(e.loopBounds)-1] }()
 	e.checkInvariants(st, lc, "inv-init", n.Pos())
 	pushedLF := e.pushLoopFrame(st, lc)
 	defer e.popLoopFrame(pushedLF)
@@ -1173,6 +1175,8 @@ func (e *Engine) execRange(st *State, n *ast.RangeStmt, cx *Ctx) *State {
 			}
 		}
 		bindHead(st)
+		e.loopBounds = append(e.loopBounds, st.alloc)
+		defer func() { e.loopBounds = e.loopBounds[:len(e.loopBounds)-1] }()
 		e.checkInvariants(st, lc, "inv-init", n.Pos())
 		pushedLF := e.pushLoopFrame(st, lc)
 		defer e.popLoopFrame(pushedLF)
